@@ -220,15 +220,7 @@ Section Top.
     assert (Hne : w <> []) by (subst w; discriminate).
     destruct (block_exact ops rs fin w H Hne) as (sl & hls & E & Hp & _).
     rewrite join_block in E. rewrite E. apply block_bytes.
-    rewrite E in Hp. unfold strict_parse in Hp.
-    (* cleanliness is what strict_parse checked *)
-    clear - Hp E. revert Hp.
-    destruct (rev (split_on 10 (block (sl :: hls)))) as [|[|] pr]; try discriminate.
-    destruct (sequence_o (map strip_cr (rev pr))) as [lines|]; try discriminate.
-    destruct (rev lines) as [|[|] br]; try discriminate.
-    destruct (rev br) as [|sl0 hls0]; try discriminate.
-    destruct (forallb clean_line (sl0 :: hls0)) eqn:C; try discriminate.
-    intro Hp. inversion Hp; subst. exact C.
+    rewrite E in Hp. eapply strict_parse_clean; eauto.
   Qed.
 
   Theorem no_nul_on_wire : forall ops rs fin w, run env ops = (rs, fin, w) -> ~ In 0 w.
@@ -245,9 +237,9 @@ Section Top.
     induction rs as [|r rs IH]; [reflexivity|]. cbn [map sequence_o]. rewrite res_of_obs_res, IH. reflexivity.
   Qed.
 
-  Theorem check_case_model : forall ops, check_case (env, ops) (run_case (env, ops)) = true.
+  Theorem check_case_model : forall ops, check_case (env, Handler ops) (run_case (env, Handler ops)) = true.
   Proof.
-    intro ops. unfold run_case, check_case.
+    intro ops. unfold run_case, check_case, check_gen.
     destruct (run env ops) as [[rs fin] w] eqn:E.
     rewrite sequence_res. rewrite (run_lengths _ _ _ _ E), Nat.eqb_refl. cbn [andb].
     destruct w as [|b w'] eqn:Ew; [reflexivity|]. rewrite <- Ew in *.
